@@ -1141,7 +1141,8 @@ func (c *Canonicalizer) writePhi(w *strings.Builder, i *ssa.Phi, instr ssa.Instr
 	type edge struct {
 		predID    string
 		predIndex int
-		value     string
+		pos       int
+		val       ssa.Value
 	}
 	edges := make([]edge, 0, len(i.Edges))
 	preds := i.Block().Preds
@@ -1163,14 +1164,7 @@ func (c *Canonicalizer) writePhi(w *strings.Builder, i *ssa.Phi, instr ssa.Instr
 			}
 		}
 
-		valStr := c.NormalizeOperand(val, instr)
-		if overrides, ok := c.virtualPhiConstants[i]; ok {
-			if ov, ok := overrides[j]; ok {
-				valStr = ov
-			}
-		}
-
-		edges = append(edges, edge{predID: predID, predIndex: idx, value: valStr})
+		edges = append(edges, edge{predID: predID, predIndex: idx, pos: j, val: val})
 	}
 
 	// Deterministic sorting logic for Phi edges
@@ -1183,8 +1177,16 @@ func (c *Canonicalizer) writePhi(w *strings.Builder, i *ssa.Phi, instr ssa.Instr
 		return edges[a].predID < edges[b].predID
 	})
 
+	// Operands are rendered in the sorted order: a forward reference gets its register name here, and
+	// that name must not depend on the order of the real predecessors (exchanged branches).
 	for _, e := range edges {
-		w.WriteString(fmt.Sprintf(" [%s: %s]", e.predID, e.value))
+		valStr := c.NormalizeOperand(e.val, instr)
+		if overrides, ok := c.virtualPhiConstants[i]; ok {
+			if ov, ok := overrides[e.pos]; ok {
+				valStr = ov
+			}
+		}
+		w.WriteString(fmt.Sprintf(" [%s: %s]", e.predID, valStr))
 	}
 }
 
